@@ -44,7 +44,7 @@ Definition find_snippet (sn : list snippet) (k : str) : option snippet :=
   find (fun s => str_eqb (sn_key s) k) sn.
 
 (* ------------------------------------------------------------------ keys_reach_self *)
-Definition key_ok (cfg : sconfig) (sn : list snippet) (k : str) : bool :=
+Definition key_line_ok (cfg : sconfig) (sn : list snippet) (k : str) : bool :=
   match find_snippet sn k with
   | Some s => res_str_eqb (expand_with cfg sn k) (Ok (own_line cfg s))
   | None => false
@@ -66,7 +66,7 @@ Definition not_gradient (k : str) : bool := negb (str_eqb k gradient_name).
 Definition sweep_keys_with (oc : option sconfig) (r : res (list snippet)) : bool :=
   match oc, r with
   | Some cfg, Ok sn =>
-      forallb (fun k => (negb (not_gradient k) || key_ok cfg sn k) && key_selects_self cfg sn k) table_keys
+      forallb (fun k => (negb (not_gradient k) || key_line_ok cfg sn k) && key_selects_self cfg sn k) table_keys
   | _, _ => false
   end.
 
@@ -106,7 +106,7 @@ Proof.
     exists s. split; [reflexivity|]. apply str_eqb_eq. exact S2.
   - intros Hg. unfold not_gradient in S1.
     destruct (str_eqb k gradient_name) eqn:Eg; [apply str_eqb_eq in Eg; contradiction|].
-    cbn [negb orb] in S1. unfold key_ok in S1.
+    cbn [negb orb] in S1. unfold key_line_ok in S1.
     destruct (find_snippet sn k) as [s|] eqn:Ef; [|discriminate].
     exists s. split; [reflexivity|]. split.
     + unfold find_snippet in Ef. apply find_some in Ef. destruct Ef as [_ Ef]. apply str_eqb_eq. exact Ef.
